@@ -1146,9 +1146,9 @@ pub fn gen(rng: &mut Rng) -> Script {
     };
     let rd = pat(rng);
     let wr = pat(rng);
-    // a cut inside the last frame; k = 4 (header only) is the documented boundary of
-    // tokio-util's decode_eof and is exercised by corpus/C15 instead
-    let cut = if framed && rng.chance(1, 6) { *rng.pick(&[1usize, 2, 3, 5, 6, 9, 17]) } else { 0 };
+    // a cut inside the last frame (k = 4 is exactly the length header: tokio-util then reports a
+    // clean end-of-stream, which C15 accepts and C16 records as a known finding)
+    let cut = if framed && rng.chance(1, 6) { *rng.pick(&[1usize, 2, 3, 4, 5, 6, 9, 17]) } else { 0 };
     Script { codec, rd, wr, cut, toks }
 }
 
@@ -1236,9 +1236,6 @@ pub fn sweep(mut f: impl FnMut(Script)) {
     // every cut position of a short two-frame stream, both codecs
     for codec in [Codec::Bincode, Codec::Json] {
         for cut in 1..40 {
-            if cut == 4 {
-                continue;
-            }
             let toks = vec![
                 Tok::Cancel { id: 1, tr: Tr { tid: 1, sid: 2, sampled: true } },
                 Tok::Cancel { id: 300, tr: Tr { tid: 3, sid: 4, sampled: false } },
@@ -1351,6 +1348,36 @@ pub fn dispatch(args: &[String]) -> bool {
                 .filter(|l| !l.trim().is_empty() && !l.starts_with('#'))
                 .filter_map(parse)
                 .map(|s| to_case(&s))
+                .collect();
+            crate::exec::write_cases(&out, &cases);
+            true
+        }
+        ("c16", "gen") => {
+            let wv = args.iter().any(|a| a == "--wrong-variant");
+            let mut rng = Rng::new(seed);
+            let stdout = std::io::stdout();
+            let mut w = stdout.lock();
+            for _ in 0..count {
+                writeln!(w, "{}", crate::c16::show(&crate::c16::gen(&mut rng, wv))).unwrap();
+            }
+            true
+        }
+        ("c16", "sweep") => {
+            let stdout = std::io::stdout();
+            let mut w = stdout.lock();
+            crate::c16::sweep(|s| writeln!(w, "{}", crate::c16::show(&s)).unwrap());
+            true
+        }
+        ("c16", "run") => {
+            let wv = args.iter().any(|a| a == "--wrong-variant");
+            let input = arg(args, "--in").expect("--in");
+            let out = arg(args, "--out").expect("--out");
+            let text = std::fs::read_to_string(input).expect("read scripts");
+            let cases: Vec<Case> = text
+                .lines()
+                .filter(|l| !l.trim().is_empty() && !l.starts_with('#'))
+                .filter_map(crate::c16::parse)
+                .map(|s| crate::c16::to_case(&s, wv))
                 .collect();
             crate::exec::write_cases(&out, &cases);
             true
